@@ -289,6 +289,70 @@ def check_jar_domain(W, rec, host, domain, value):
             rec.violation("C13/client-jar-domain-scope-ignored", f"cookie with Domain={domain!r} was sent to unrelated.test", case, monitor="roundtrip")
 
 
+def check_response_api(W, rec, rng):
+    """The response-side API over the same serialiser: Response.set_cookie writes exactly the cookie dump_cookie
+    describes, delete_cookie writes an expired, empty cookie carrying the same path / domain / flags - and through the
+    client's jar a deleted cookie is gone, a replaced one is replaced."""
+    import itertools as _it
+
+    from werkzeug.test import Client
+    from werkzeug.wrappers import Request, Response
+
+    http = W["http"]
+    for path, domain, secure, httponly, samesite, partitioned in _it.product(["/", "/a b", "/é"], [None, "example.com", ".example.com", "münchen:5000"], [False, True], [False, True], [None, "Lax", "none"], [False, True]):
+        rec.case()
+        rec.nontrivial(("response-api", path, domain, secure, httponly, samesite, partitioned))
+        rec.observe("response_api_cells")
+        case = {"part": "response-api", "path": path, "domain": domain, "secure": secure, "httponly": httponly, "samesite": samesite, "partitioned": partitioned}
+        val = rng.choice(["v", "a b;c", "é", 'q"r'])
+        r = Response()
+        r.set_cookie("k", val, max_age=60, path=path, domain=domain, secure=secure, httponly=httponly, samesite=samesite, partitioned=partitioned)
+        want = http.dump_cookie("k", val, max_age=60, path=path, domain=domain, secure=secure, httponly=httponly, samesite=samesite, partitioned=partitioned, max_size=r.max_cookie_size)
+        got = r.headers.getlist("Set-Cookie")
+        # (Expires is derived from the clock: compare modulo its value)
+        import re as _re
+
+        norm = lambda h: _re.sub(r"Expires=[^;]*", "Expires=*", h)  # noqa: E731
+        if [norm(g) for g in got] != [norm(want)]:
+            rec.violation("C13/set_cookie-differs-from-dump_cookie", f"{got!r} vs {want!r}", case, monitor="attribute-model")
+            continue
+        d = Response()
+        d.delete_cookie("k", path=path, domain=domain, secure=secure, httponly=httponly, samesite=samesite, partitioned=partitioned)
+        dh = d.headers.getlist("Set-Cookie")
+        segs = dh[0].split("; ") if len(dh) == 1 else []
+        attrs_set = [x for x in norm(want).split("; ")[1:] if not x.startswith(("Expires=", "Max-Age="))]
+        attrs_del = [x for x in segs[1:] if not x.startswith(("Expires=", "Max-Age="))]
+        if not segs or segs[0] != "k=" or "Expires=Thu, 01 Jan 1970 00:00:00 GMT" not in segs or "Max-Age=0" not in segs or attrs_del != attrs_set:
+            rec.violation("C13/delete_cookie-not-an-expired-twin", f"delete_cookie wrote {dh!r}; set_cookie with the same arguments wrote {got!r}", case, monitor="attribute-model")
+    # through the jar
+    for dom in (None, "example.com"):
+        seen = {}
+
+        def app(environ, start_response, dom=dom):
+            rq = Request(environ)
+            seen[rq.path] = dict(rq.cookies)
+            resp = Response("ok")
+            if rq.path == "/set":
+                resp.set_cookie("k", "one; two", domain=dom, path="/")
+                resp.set_cookie("other", "stays", domain=dom, path="/")
+            elif rq.path == "/replace":
+                resp.set_cookie("k", "three", domain=dom, path="/")
+            elif rq.path == "/delete":
+                resp.delete_cookie("k", domain=dom, path="/")
+            return resp(environ, start_response)
+
+        c = Client(app)
+        for p_ in ("/set", "/look1", "/replace", "/look2", "/delete", "/look3"):
+            c.get(p_, base_url="http://example.com/").close()
+        rec.case()
+        rec.nontrivial(("response-api-jar", dom))
+        rec.observe("jar_set_replace_delete_sequences")
+        exp = {"/look1": {"k": "one; two", "other": "stays"}, "/look2": {"k": "three", "other": "stays"}, "/look3": {"other": "stays"}}
+        got_ = {k_: seen.get(k_) for k_ in exp}
+        if got_ != exp:
+            rec.violation("C13/client-jar-set-replace-delete", f"domain={dom!r}: the server saw {got_!r}, expected {exp!r}", {"part": "response-api-jar", "domain": dom}, monitor="roundtrip")
+
+
 def rand_value(rng):
     out = []
     for _ in range(rng.randrange(0, 10)):
@@ -356,6 +420,8 @@ def run(shard, rec, rng):
     for j, pth in enumerate(JAR_PATHS):
         if j % of == idx % len(JAR_PATHS) or idx == 0:
             check_jar_path(W, rec, pth, rng.choice(["v", "a b;c", "é"]))
+    if idx % 4 == 1:
+        check_response_api(W, rec, rng)
     # invalid samesite is refused
     if idx == 0:
         for bad in ("invalid", "lax; Secure", ""):
